@@ -114,6 +114,14 @@ def step (d : DSt) (ws : List String) : DSt × String :=
     -- specification: nil on unsubscribe, the pipe's error (ErrClosing on Close) when closed, the context error when cancelled
     (d, if e == "ctx" then "ctx" else if e == "doerr" then "cmd" else if perr == "-" then "nil" else "pipe:" ++ perr)
   | ["hreset"] => ({ d with hk := {} }, "ok")
+  | ["hswapdead", e] =>
+    -- SetPubSubHooks(non-zero) on a pipe whose connection already failed: Swap(new), then Swap(empty)
+    -- with the error sent to and the close of whatever that second Swap returned
+    let h := hookStep (hookStep d.hk .swapNew) (.swapEmpty (some e)); ({ d with hk := h }, showHookSt h)
+  | ["!hooks-invariant"] =>
+    -- specification: every channel handed out was closed at most once, carries at most one error,
+    -- nothing was sent after a close: no Go panic
+    (d, "ok")
   | ["hswap"] => let h := hookStep d.hk .swapNew; ({ d with hk := h }, showHookSt h)
   | ["hempty", e] => let h := hookStep d.hk (.swapEmpty (if e == "-" then none else some e)); ({ d with hk := h }, showHookSt h)
   | _ => (d, "bad-op")
